@@ -21,15 +21,25 @@ for line in sys.stdin:
     try:
         from sasmodels import core, kerneldll
         from sasmodels.direct_model import call_kernel
-        model = core.load_model(modelpath, dtype=DT[cmd["bits"]], platform="dll")
-        kernel = model.make_kernel([np.array([0.5])])
-        val = call_kernel(kernel, {"scale": 1.0, "background": 0.0})
+        if cmd["cmd"] == "svload":
+            from sasmodels import sasview_model
+            inst = sasview_model.load_custom_model(modelpath)()
+            inst.setParam("scale", 1.0)
+            inst.setParam("background", 0.0)
+            val = inst.evalDistribution(np.array([0.5]))
+            model = type(inst)._model
+            kernel = None
+        else:
+            model = core.load_model(modelpath, dtype=DT[cmd["bits"]], platform="dll")
+            kernel = model.make_kernel([np.array([0.5])])
+            val = call_kernel(kernel, {"scale": 1.0, "background": 0.0})
         v = float(val[0])
         rep["value"] = int(v) if v == int(v) and abs(v) < 2 ** 31 else -1
         rep["raw"] = repr(v)
         rep["dtypebits"] = int(np.dtype(model.dtype).itemsize) * 8
         rep["npars"] = int(model.info.parameters.npars)
-        kernel.release()
+        if kernel is not None:
+            kernel.release()
         names = os.listdir(kerneldll.SAS_DLL_PATH)
         for b in (32, 64, 128):
             rep["nlib%d" % b] = sum(1 for f in names if f.startswith("sas%d_" % b) and f.endswith(".so"))
